@@ -67,6 +67,9 @@ pub const BINOPS: [&str; 26] = [
 pub const IDENTS: &[&str] = &[
     "a", "b", "c", "x", "y", "z", "foo", "bar_1", "_t", "n2", "trueish", "null_count", "falsey", "iffy", "android",
     "orbit", "nothing", "done", "returned", "outputs", "thence", "elsewhere", "infinite",
+    // the word operators that are no reserved words are names too: a statement that starts with
+    // one of them followed by a blank would continue the line before it (C07 finding, repo 1decf6c)
+    "via", "into", "where",
 ];
 
 pub const BUILTIN_NAMES: &[&str] = &["map", "sum", "len", "sqrt", "max", "filter", "to_string", "range"];
@@ -327,10 +330,15 @@ fn item_src(e: &GE, indent: usize) -> String {
     to_source(e, indent)
 }
 
-/// a statement must not start with `-` or `+` (it would continue the previous line)
+/// a statement must not start with `-` or `+`, nor with a name spelled `via` / `into` / `where`
+/// followed by a blank (it would continue the previous line)
+pub fn word_operator_start(s: &str) -> bool {
+    ["via", "into", "where"].iter().any(|w| s.strip_prefix(w).is_some_and(|r| r.starts_with(' ') || r.starts_with('\t')))
+}
+
 fn stmt_src(e: &GE, indent: usize) -> String {
     let s = to_source(e, indent);
-    if s.starts_with('-') || s.starts_with('+') { format!("({})", s) } else { s }
+    if s.starts_with('-') || s.starts_with('+') || word_operator_start(&s) { format!("({})", s) } else { s }
 }
 
 /// A top-level statement in reference text.
